@@ -154,6 +154,19 @@ CLAIMED["C04"] = dict(
     note=TRUST + "; two-line ellipsoid and spherical definitions in the driver; independent parse of the EOP table (the per-day EOP lookup is taken as designed: the expected advance includes the table's own UT1 step); absolute sidereal orientation is not decided",
     engine="frames")
 
+CLAIMED["C02"] = dict(
+    text=("SensorChain.tla specifies the observation-attempt chain (slew, field of view, per-kind visibility, serendipitous loop) as "
+          "a nondeterministic decision procedure over independently evaluated tri-state constraints (fails / holds / undecided inside "
+          "a tolerance band); TLC checks ObservationAllowed, MissReasonTrue, ExactlyOneMissForPrimary, BackgroundOnlyObservations, "
+          "BoresightUpdatedIffSlew, BackgroundNeedsSlew and the measurement bound over all constraint vectors x sensor kinds x host "
+          "kinds x background targets. Every record of the real Sensor.collectObservations (about 5k quick / 64k thorough, real Radar / "
+          "AdvRadar / Optical sensors on ground and space hosts from the repository's configurations plus placements on the edges +- "
+          "delta of every constraint, the 0/360 seam, zenith and horizon) is validated by TLC against TraceSensorChain.tla; constraint "
+          "values and noise-free measurements come from an independent first-principles geometry."),
+    ref="5 C02", technique="TLA+ spec SensorChain.tla + TLC exhaustive; trace validation of real collectObservations records against an independent geometry oracle",
+    note=TRUST + "; the code's FK5 rotation at the authoritative datetime and its Sun ephemeris; stated tolerance bands (undecided accepted both ways); photometric formulas checked for wiring only",
+    engine="sensor-chain")
+
 NOT_APPLICABLE = {
     "C13": ("an explicit TLA+ specification cannot evaluate a degree-20 spherical-harmonic gradient or analytic ephemerides; "
             "the property IS equality with an independent numerical reference, which would be differential testing, a "
